@@ -13,6 +13,7 @@ import (
 	"fmt"
 	"math/big"
 	"os"
+	"sort"
 
 	"github.com/foxboron/go-uefi/authenticode"
 	"github.com/foxboron/go-uefi/pkcs7"
@@ -40,6 +41,26 @@ type p7Seed struct {
 
 // samePlate builds a certificate with the issuer bytes and serial of c but K2's key.
 func samePlate(c *x509.Certificate) *x509.Certificate { return samePlateK(c, 2) }
+
+// samePlatesOtherSizes: two certificates with c's issuer and serial under keys whose modulus differs from
+// c's own key (a larger one where there is one, and the 2047-bit key or, for that signer, the 3072-bit one).
+func samePlatesOtherSizes(c *x509.Certificate) [2]*x509.Certificate {
+	own, _ := c.PublicKey.(*rsa.PublicKey)
+	var picked []int
+	for _, k := range []int{4, 6, 3, 2} {
+		if own != nil && keys.K(k).PublicKey.N.Cmp(own.N) == 0 {
+			continue
+		}
+		if own != nil && keys.K(k).PublicKey.N.BitLen() == own.N.BitLen() {
+			continue
+		}
+		picked = append(picked, k)
+		if len(picked) == 2 {
+			break
+		}
+	}
+	return [2]*x509.Certificate{samePlateK(c, picked[0]), samePlateK(c, picked[1])}
+}
 
 // samePlateK: the same with key k (4 = a LARGER modulus than the usual signer's, 6 = 2047 bits,
 // 7 = public exponent 3).
@@ -908,6 +929,70 @@ func p7Edits(s p7Seed) []p7Edit {
 			}
 		}
 	}
+	// (f) Authenticode: the data type inside SpcIndirectDataContent replaced by its neighbours in the
+	// same OID arc (other Spc* types) and by shorter / longer identifiers
+	if len(t0.ci.Children) > 1 && len(t0.ci.Children[1].Children) == 1 {
+		if in := t0.ci.Children[1].Children[0]; in.Tag == 0x30 && len(in.Children) == 2 && len(in.Children[0].Children) >= 1 && in.Children[0].Children[0].Tag == 0x06 {
+			for _, oid := range [][]uint64{{1, 3, 6, 1, 4, 1, 311, 2, 1, 21}, {1, 3, 6, 1, 4, 1, 311, 2, 1, 25}, {1, 3, 6, 1, 4, 1, 311, 2, 1, 4}, {1, 3, 6, 1, 4, 1, 311, 2, 1}, {1, 3, 6, 1, 4, 1, 311, 2, 1, 15, 1}, {2, 5}} {
+				oid := oid
+				add("data type of the SpcIndirectDataContent replaced by another object identifier", func(t *p7Tree) bool {
+					t.ci.Children[1].Children[0].Children[0].Children[0].Val = der.OID(oid...)
+					return true
+				})
+			}
+		}
+	}
+	// (g) the signer identified otherwise than by issuer and serial: the CMS subjectKeyIdentifier form
+	// ([0] IMPLICIT OCTET STRING) with an empty value, with the certificate's own key identifier, with
+	// 20 zero octets; an empty issuerAndSerialNumber
+	for _, sid := range []struct {
+		name string
+		val  []byte
+	}{{"an empty subjectKeyIdentifier [0]", nil}, {"the certificate's subjectKeyIdentifier [0]", s.Signer.SubjectKeyId}, {"a subjectKeyIdentifier [0] of 20 zero octets", make([]byte, 20)}} {
+		sid := sid
+		if sid.val == nil && sid.name != "an empty subjectKeyIdentifier [0]" {
+			continue
+		}
+		add("signer identifier replaced by "+sid.name, func(t *p7Tree) bool {
+			t.si.Children[1] = der.Prim(0x80, sid.val)
+			return true
+		})
+	}
+	// (h) what a "retry over the re-encoded attributes" trips over: the contentType attribute removed and
+	// the remaining attributes in descending order (the signature no longer verifies)
+	add("contentType attribute removed, the remaining attributes in descending order", func(t *p7Tree) bool {
+		if t.attrs == nil || len(t.attrs.Children) < 3 {
+			return false
+		}
+		var keep []*der.Node
+		for _, a := range t.attrs.Children {
+			if len(a.Children) == 2 && bytes.Equal(a.Children[0].Val, refp7.OIDContentType) {
+				continue
+			}
+			keep = append(keep, a)
+		}
+		sort.Slice(keep, func(i, j int) bool { return bytes.Compare(keep[i].Encode(), keep[j].Encode()) > 0 })
+		t.attrs.Children = keep
+		return true
+	})
+	add("only the messageDigest attribute kept, twice, the larger first", func(t *p7Tree) bool {
+		if t.attrs == nil {
+			return false
+		}
+		for _, a := range t.attrs.Children {
+			if len(a.Children) == 2 && bytes.Equal(a.Children[0].Val, refp7.OIDMessageDigest) {
+				b := a.Clone()
+				b.Children[1].Children[0].Val[0] ^= 0xff
+				x, y := a.Clone(), b
+				if bytes.Compare(x.Encode(), y.Encode()) < 0 {
+					x, y = y, x
+				}
+				t.attrs.Children = []*der.Node{x, y}
+				return true
+			}
+		}
+		return false
+	})
 	// (d) BER constructed OCTET STRING content (tag 0x24): well-formed and malformed segments
 	{
 		orig := []byte("content that was never signed")
